@@ -257,17 +257,28 @@ pub struct ProbeSpec {
     /// true: the same parameter vector always gets the same answer (a landscape); false: the
     /// answers follow the script call by call (an adversarial, inconsistent score function)
     pub memo: bool,
+    /// true: the state hands out one more handle, a second one for its first parameter (two
+    /// handles on one shared cell, as a cell with tied sides would)
+    pub alias: bool,
 }
 
 impl ProbeSpec {
+    /// Number of handles generate_basis returns.
+    pub fn handles(&self) -> usize {
+        self.start.len() + self.alias as usize
+    }
+    pub fn aliased(mut self) -> ProbeSpec {
+        self.alias = true;
+        self
+    }
     pub fn n(&self) -> usize {
         self.bounds.len()
     }
     pub fn standard(n: usize) -> ProbeSpec {
         match n {
-            1 => ProbeSpec { bounds: vec![(-1., 1.)], start: vec![0.125], s0: 0., memo: true },
-            2 => ProbeSpec { bounds: vec![(-1., 1.), (0., 4.)], start: vec![0.25, 4.], s0: 0., memo: true },
-            3 => ProbeSpec { bounds: vec![(-1., 1.), (0., 4.), (0.1, 0.35)], start: vec![0., 2., 0.1], s0: 0., memo: true },
+            1 => ProbeSpec { bounds: vec![(-1., 1.)], start: vec![0.125], s0: 0., memo: true, alias: false },
+            2 => ProbeSpec { bounds: vec![(-1., 1.), (0., 4.)], start: vec![0.25, 4.], s0: 0., memo: true, alias: false },
+            3 => ProbeSpec { bounds: vec![(-1., 1.), (0., 4.), (0.1, 0.35)], start: vec![0., 2., 0.1], s0: 0., memo: true, alias: false },
             _ => panic!("probe size"),
         }
     }
@@ -307,7 +318,7 @@ impl ProbeSpec {
         self
     }
     pub fn json(&self) -> Value {
-        json!({"bounds": self.bounds, "start": self.start, "s0": self.s0, "memo": self.memo})
+        json!({"bounds": self.bounds, "start": self.start, "s0": self.s0, "memo": self.memo, "alias": self.alias})
     }
     pub fn from_json(v: &Value) -> ProbeSpec {
         ProbeSpec {
@@ -315,6 +326,7 @@ impl ProbeSpec {
             start: v["start"].as_array().unwrap().iter().map(|x| x.as_f64().unwrap()).collect(),
             s0: v["s0"].as_f64().unwrap(),
             memo: v["memo"].as_bool().unwrap_or(true),
+            alias: v["alias"].as_bool().unwrap_or(false),
         }
     }
 }
@@ -340,6 +352,7 @@ pub struct Env {
 
 pub struct Probe {
     vals: Vec<SharedValue>,
+    alias: bool,
     bounds: Vec<(f64, f64)>,
     env: Arc<Mutex<Env>>,
     inst: usize,
@@ -349,6 +362,7 @@ impl Probe {
     pub fn new(spec: &ProbeSpec, env: Arc<Mutex<Env>>) -> Probe {
         Probe {
             vals: spec.start.iter().map(|v| SharedValue::new(*v)).collect(),
+            alias: spec.alias,
             bounds: spec.bounds.clone(),
             env,
             inst: 0,
@@ -368,6 +382,7 @@ impl Clone for Probe {
         };
         Probe {
             vals: self.vals.iter().map(|v| SharedValue::new(v.get_value())).collect(),
+            alias: self.alias,
             bounds: self.bounds.clone(),
             env: self.env.clone(),
             inst,
@@ -435,11 +450,11 @@ impl State for Probe {
         ans
     }
     fn generate_basis(&self) -> Vec<StandardBasis> {
-        self.vals
-            .iter()
-            .zip(self.bounds.iter())
-            .map(|(v, (lo, hi))| StandardBasis::new(v, *lo, *hi))
-            .collect()
+        let mut b: Vec<StandardBasis> = self.vals.iter().zip(self.bounds.iter()).map(|(v, (lo, hi))| StandardBasis::new(v, *lo, *hi)).collect();
+        if self.alias {
+            b.push(StandardBasis::new(&self.vals[0], self.bounds[0].0, self.bounds[0].1));
+        }
+        b
     }
     fn total_shapes(&self) -> usize {
         1
@@ -529,7 +544,7 @@ pub fn run_script(cfg: &Cfg, spec: &ProbeSpec, script: &[StepScript]) -> Obs {
             e.answers.push(s.answer);
         }
     }
-    let n = spec.n();
+    let n = spec.handles();
     let words: Vec<(u64, u64, u64)> = script
         .iter()
         .map(|s| (index_word(s.index.min(n - 1), n), unit_word(s.q), threshold_word_k(s.thr_k)))
@@ -554,7 +569,8 @@ pub fn run_script(cfg: &Cfg, spec: &ProbeSpec, script: &[StepScript]) -> Obs {
     let result = panic::catch_unwind(AssertUnwindSafe(|| {
         let opt = builder.build();
         let out = opt.optimise_state(probe);
-        let fp: Vec<f64> = out.generate_basis().iter().map(|b| b.get_value()).collect();
+        // (one value per parameter: a second handle on the first parameter repeats its value)
+        let fp: Vec<f64> = out.generate_basis().iter().take(spec.n()).map(|b| b.get_value()).collect();
         // the score of the returned state, asked after the run (memoised landscape)
         verif_hooks::install(None);
         let fs = out.score();
